@@ -8,7 +8,9 @@ for d in seeded/*/; do
   # the check a change is run against is named in its meta.json (usually its own property's)
   q=$(python3 -c "import json,sys; print(json.load(open('$d/meta.json'))['run_against_checks']['command'].split()[1])" 2>/dev/null)
   case "$q" in C09|C10|C13|C17|C18) p=$q;; esac
-  r=$(tools/seeded.sh $p /verif/$d/patch.diff 2>&1)
+  # a change whose patch no longer applies to the current /repo has a hand-rebased twin (see its meta.json)
+  pf=/verif/$d/patch.diff; [ -f /verif/$d/patch.rebased.diff ] && pf=/verif/$d/patch.rebased.diff
+  r=$(tools/seeded.sh $p $pf 2>&1)
   rc=$(echo "$r" | grep -o 'exit=[0-9]*' | head -1)
   cls=$(echo "$r" | grep -o 'class=[A-Z-]*' | sort -u | tr '\n' ' ')
   echo "$n $rc $cls" | tee -a $OUT.tmp
